@@ -70,7 +70,8 @@ def _batch(run, first_needs_two=False):
     kind = KINDS[ch.pick(len(KINDS))]
     two_d = ch.pick(3) == 0
     vals = _values(run.streams.get("data"), size, mag, kind)
-    x = torch.tensor(vals, dtype=torch.float32).reshape(_shape(size, two_d))
+    x = torch.tensor(vals, dtype=torch.float64 if run.plan.get("dtype") == "float64" else torch.float32) \
+        .reshape(_shape(size, two_d))
     return x, [float(v) for v in x.reshape(-1).tolist()], {"size": size, "mag": mag, "kind": kind,
                                                            "shape": list(x.shape)}
 
@@ -141,6 +142,7 @@ class C20:
         if kind == "scaler":
             plan["scale"] = rc.choice([None, 2, 10, 100, "norm", "norm", "norm", "scale", "scale"])
             plan["p_update"] = rc.choice([0.0, 0.2, 0.5])
+            plan["dtype"] = "float64" if rc.random() < 0.2 else "float32"
         elif kind == "ema":
             plan["beta"] = rc.choice(BETAS)
             plan["via"] = rc.choice(["class", "class", "registry", "mean"])
@@ -188,14 +190,19 @@ class C20:
 # ------------------------------------------------------------------------------------------------
 # RewardScaler
 # ------------------------------------------------------------------------------------------------
+# relative tolerance / epsilon of the run's tensor dtype: float32 histories (what training feeds) and, in a fifth
+# of the scaler runs, float64 histories (precision=64 training), where the accumulators must keep float64
+_NUM = {"rel": 1e-5, "eps": R.F32_EPS}
+
+
 def _stat_tol(scale: float, n_updates: int) -> float:
-    """float32 accumulators: error proportional to the data scale (DESIGN section 4 with the data
-    scale in place of |ref|, which may be ~0 for centred data)."""
-    return 1e-5 * max(scale, 1e-30) * math.sqrt(max(n_updates, 1))
+    """accumulator error proportional to the data scale (DESIGN section 4 with the data scale in place of
+    |ref|, which may be ~0 for centred data)."""
+    return _NUM["rel"] * max(scale, 1e-30) * math.sqrt(max(n_updates, 1))
 
 
 def _var_tol(scale: float, n_updates: int) -> float:
-    return 1e-5 * max(scale * scale, 1e-60) * math.sqrt(max(n_updates, 1))
+    return _NUM["rel"] * max(scale * scale, 1e-60) * math.sqrt(max(n_updates, 1))
 
 
 def _run_scaler(run):
@@ -206,6 +213,10 @@ def _run_scaler(run):
     scope = "RewardScaler"
     with run.guard(scope, "construct"):
         rs = RewardScaler(mode)
+    f64 = plan.get("dtype") == "float64"
+    _NUM["rel"], _NUM["eps"] = (1e-11, 2.220446049250313e-16) if f64 else (1e-5, R.F32_EPS)
+    if f64:
+        run.probe("scaler_float64_history")
     ref = R.RunningStats()
     stat_mode = mode in ("norm", "scale")
     n_upd = 0
@@ -299,16 +310,19 @@ def _check_output(run, scope, t, mode, x_in, vals, out, ref, n_upd):
     if not (s_ref > 1e-3 * scale):
         run.probe("degenerate_std")
         return
-    tol_mean = _stat_tol(scale, n_upd)
-    tol_std = _var_tol(scale, n_upd) / s_ref
-    want = R.scaler_transform(vals, mode, ref)
-    den = s_ref + R.F32_EPS
+    # the output is float32-accurate whatever the input dtype: RewardScaler takes the square root in float32
+    # (`.float().sqrt()`); only the running statistics are held to the history's own precision
+    rel_out = 1e-5
+    tol_mean = rel_out * max(scale, 1e-30) * math.sqrt(max(n_upd, 1))
+    tol_std = rel_out * max(scale * scale, 1e-60) * math.sqrt(max(n_upd, 1)) / s_ref
+    want = R.scaler_transform(vals, mode, ref, eps=_NUM["eps"])
+    den = s_ref + _NUM["eps"]
     worst = None
     for i, (g, w) in enumerate(zip(got, want)):
         num = abs(vals[i] - m_ref) if mode == "norm" else abs(vals[i])
         # propagated tolerance: statistics within tol_stat, plus float32 evaluation of the formula
         tol = (tol_mean / den if mode == "norm" else 0.0) + num * tol_std / (den * den) \
-            + 1e-5 * max(1.0, abs(w)) + 1e-6 * scale / den
+            + rel_out * max(1.0, abs(w)) + 0.1 * rel_out * scale / den
         if not (abs(g - w) <= tol):
             worst = (i, g, w, tol)
             break
